@@ -125,7 +125,7 @@ var C15 = &sqrun.Check{ID: "C15", QuickBudget: 60, ThoroughBudget: 600,
 		k := &collector{c: c}
 		L := 3
 		if c.Thorough {
-			L = 4
+			L = 5
 		}
 		toks := []string{"\n", "\r", "a", ":", " ", "data: x", "id: z", "\xEF\xBB\xBF", "retry: 5", "\xff"}
 		payloads := Strings(toks, L)
